@@ -167,4 +167,44 @@ def run(prop, cfg, tier, seed, known):
     if missing:
         out["undecided"].append("harnesses listed in harnesses.json did not run: %s" % missing[:5])
     out["trusted"] += ["CBMC 6.11 / Kani 0.68 symbolic execution of MIR; Kani models of alloc/core intrinsics"]
+    out["profile_probe"] = profile_probe(prop, prefixes, tier, seed, known, out)
     return out
+
+def profile_probe(prop, prefixes, tier, seed, known, out):
+    """Kani verifies the harnesses in ONE build profile (debug assertions and overflow checks on).  The same harness bodies are
+    therefore also executed natively, in the release AND the debug profile, on generated inputs (bounded sampling, labelled as
+    such, never counted as proof): a harness that must not panic panics, or a statement that must panic returns => a
+    profile divergence with a concrete input (this is how the release-only masking of `Limb::shl(64)` shows up)."""
+    iters = 300 if tier == "quick" else 3000
+    rep = {"kind": "bounded sampling (native execution of the harness bodies)", "iterations_per_harness": iters, "profiles": {}}
+    for prof, flags in (("release", ["--release"]), ("debug", [])):
+        b = subprocess.run(["cargo", "build", "--offline", "--bin", "replay"] + flags, cwd=KDIR, env=ENV, capture_output=True, text=True)
+        if b.returncode != 0:
+            rep["profiles"][prof] = {"error": "build failed: " + b.stderr[-600:]}
+            out["undecided"].append("profile probe: replay driver does not build in the %s profile: %s" % (prof, b.stderr[-600:])); continue
+        exe = os.path.join(KDIR, "target", "release" if prof == "release" else "debug", "replay")
+        try:
+            r = subprocess.run([exe, "--probe", ",".join(prefixes), str(seed), str(iters)], capture_output=True, text=True, timeout=1800)
+        except subprocess.TimeoutExpired:
+            rep["profiles"][prof] = {"error": "timeout"}; continue
+        summ = [l for l in r.stdout.split("\n") if l.startswith("PROBE ")]
+        rep["profiles"][prof] = {"summary": summ[-1] if summ else r.stdout[-300:] + r.stderr[-300:]}
+        if not summ:
+            out["undecided"].append("profile probe (%s) crashed: %s" % (prof, (r.stdout + r.stderr)[-600:])); continue
+        for l in r.stdout.split("\n"):
+            if not l.startswith("{"): continue
+            try: d = json.loads(l)
+            except Exception: continue
+            short = d["harness"]
+            if any(v.get("function") == short for v in out["violations"]): continue   # already reported by Kani
+            if any(k[0].get("harness") == short for k in out["known_hits"]): continue
+            kf = [k for k in known if k.get("property") == prop and k.get("harness") == short]
+            if kf:
+                out["known_hits"].append((kf[0], {"msg": "profile probe (%s)" % prof})); continue
+            what = ("a statement that must panic returned normally" if d["expects_panic"] else "the harness body panicked") + " in the %s profile (native execution, generated input)" % prof
+            out["violations"].append({"engine": "kani", "function": short, "file": "kani/src", "src_line": 0,
+                                      "obligation": "profile probe: " + what, "concrete_inputs": d["vals"],
+                                      "replay": [{"profile": prof, "cmd": "%s %s '%s'" % (exe, short, json.dumps(d["vals"]))}],
+                                      "counterexample": True, "verifier_output": l})
+            out["obligations"] += 1
+    return rep
